@@ -9,7 +9,7 @@
 From Coq Require Import List Bool Arith ZArith.
 From Verif Require Import Base.Effects Calcium.World.
 Import ListNotations.
-Open Scope Z_scope.
+Local Open Scope Z_scope.
 
 Definition oerr := option err.
 Definition err_of (r : reply) : oerr := match r with RErr e => Some e | _ => None end.
@@ -254,8 +254,9 @@ Definition deploy_on_node (opi : nat) (pod n : name) (k : nat) (r : res) : cprog
   e <- get_and_prepare_node n ;;
   match e with
   | Some _ =>
-    for_all (seq_nat 0 k) (fun _ => send (MCreateFail n)) ;;;
-    Ret (seq_nat 0 k, repeat (MCreateFail n) k)
+    (* these messages carry the error only, no node name *)
+    for_all (seq_nat 0 k) (fun _ => send MCreateErr) ;;;
+    Ret (seq_nat 0 k, repeat MCreateErr k)
   | None =>
     (fix loop (idxs : list nat) : cprog (list nat * list msg) :=
        match idxs with
